@@ -1,6 +1,6 @@
 SPECIFICATION Spec
 CONSTANTS
-  MaxN = 9
+  MaxN = 10
   DealMaxN = 0
   ExactLimit = 50
   TiesExactLimit = 25
